@@ -3,6 +3,7 @@ package mbapp
 import (
 	"context"
 	"fmt"
+	"math"
 	"runtime"
 	"sync/atomic"
 	"time"
@@ -63,7 +64,7 @@ func New[A p2p.Addr, Pub any](x p2p.SecureSwarm[A, Pub], mtu int, opts ...Option
 func (s *Swarm[A, Pub]) Ask(ctx context.Context, resp []byte, dst A, req p2p.IOVec) (int, error) {
 	ctx, cf := context.WithTimeout(ctx, maxAskWait)
 	defer cf()
-	if p2p.VecSize(req) > s.mtu {
+	if p2p.VecSize(req) > s.MTU() {
 		return 0, p2p.ErrMTUExceeded
 	}
 	// create ask in map
@@ -101,7 +102,7 @@ func (s *Swarm[A, Pub]) Ask(ctx context.Context, resp []byte, dst A, req p2p.IOV
 }
 
 func (s *Swarm[A, Pub]) Tell(ctx context.Context, dst A, msg p2p.IOVec) error {
-	if p2p.VecSize(msg) > s.mtu {
+	if p2p.VecSize(msg) > s.MTU() {
 		return p2p.ErrMTUExceeded
 	}
 	return s.send(ctx, dst, sendParams{
@@ -142,6 +143,10 @@ func (s *Swarm[A, Pub]) LookupPublicKey(ctx context.Context, x A) (Pub, error) {
 }
 
 func (s *Swarm[A, Pub]) MTU() int {
+	// the part count travels in 16 bits
+	if max := (s.inner.MTU() - HeaderSize) * math.MaxUint16; s.mtu > max {
+		return max
+	}
 	return s.mtu
 }
 
